@@ -18,12 +18,14 @@ CLAIMED["C05"] = (
     "response, and every sample keeps |shift| <= m (+5e-5 px code tolerance); FSC variant; PCC coarse crop/unwrap and the "
     "refinement window contain the coarse peak and keep |shift| <= m. Tie: all scalar index expressions of _zncc/_upsample/_fsc/"
     "_pcc are regenerated from source each run; _create_mesh and landscape shapes compared with the model inside Coq. "
+    "PCC coarse peak within round(m) with a floor-restricted, non-empty refinement window; FSC phase tables: one ramp per landscape sample per axis, ramp j = lag of landscape index j. "
     "No-exception/finite-score clauses and loader-level displacement are exercised by an implementation oracle (partial).",
     "regenerated anchors + Coq theorems (lia/lra) + in-Coq correspondence")
 CLAIMED["C06"] = (
     "Theorems (Coq, all T>=1 (<=256), K>=1, all score lists): the reported flat index is a first arg-max (>= every candidate), "
     "and decoding it with the code's own expressions (align: iopt // n_templates; loader/group label: % remainder with the code's "
     "guards, uint8) returns exactly the (template j, rotation k) of that candidate; fit() uses the same codec; group-level decoding "
+    "Searched rotation set of a (max, step) range: exactly the multiples of the step within [-max, max] (sound, complete, 2*trunc(max/step)+1 per axis); "
     "equals loader-level. Tie: decode expressions regenerated from source; scripted-score correspondence drives model.align, "
     "loader.align(_multi_templates) and LoaderGroup.align_multi_templates (incl. per-group mappings) and compares label/rotation/"
     "score inside Coq; candidate order tied by a structural anchor + real-score oracle (ZNCC/NCC/PCC).",
@@ -41,7 +43,8 @@ CLAIMED["C11"] = (
 CLAIMED["C01"] = (
     "Theorems (Coq, abstract ring): the aligned pose is the input pose composed on the right with the rigid motion (shift*scale, q) "
     "denoted by the alignment result; hence, if the tomogram holds the template at pose B and the template pins its pose, the "
-    "output molecule acts exactly like B; unit conversion px<->nm; the displacement seen in the input molecule frame is scale*shift. "
+    "output molecule acts exactly like B; unit conversion px<->nm; the displacement seen in the input molecule frame is scale*shift; "
+    "the search range is divided by the scale exactly once on every loader entry point (generated data-flow table). "
     "Tie: C11 anchors + loader anchors regenerated; _post_align/_post_align_multi_templates of Subtomogram/Batch loaders driven "
     "with synthetic results and compared (position, orientation, shift/rotation/score features) inside Coq. Sub-pixel recovery "
     "of a simulated particle through single/batch/group/multi-template loaders x ZNCC/NCC/PCC is a numeric oracle (partial).",
@@ -50,7 +53,9 @@ CLAIMED["C03"] = (
     "Theorems (Coq, every table = every history, any interleaving of image ids): the i-th loading task of a batch loader is the "
     "i-th molecule, taken from the group (tomogram) that molecule is registered with (scatter by rank within its image-id group); "
     "group-by-first-appearance partitions the table (permutation, distinct keys, constant key per group, completeness); head/tail "
-    "return exactly a prefix/suffix; refuted witness for the pre-fix concatenation order. Tie: structural anchors regenerated from "
+    "return exactly a prefix/suffix; refuted witness for the pre-fix concatenation order; BatchLoader registry as a state machine: "
+    "the automatic image id is never in use and, for every add_tomogram/selection history, every molecule's id maps to the tomogram "
+    "it was added with (invariant by induction). Tie: structural anchors regenerated from "
     "_batch.py/_base.py/_group.py; random operation histories (filter/head/tail/sort/sample/subset-replace, groupby) on real "
     "Subtomogram/Batch loaders whose tomograms encode (image, position): tags, image ids, loaded voxels, apply rows, group keys/"
     "members and purity of all earlier objects are checked against the model inside Coq; sort/sample are validated as (sorted) "
@@ -166,7 +171,10 @@ CLAIMED["C18"] = (
     "translated from source) returns an exact solver for every (N, F, n_components) it accepts, and accepts every 0 <= c <= "
     "min(N,F); the library default 'auto' is refuted (N=600,F=64,c=2 -> randomized) and exact only when max(N,F) <= 500; the "
     "flattened stack has one column chunk iff no image axis is chunked (the precondition of the tall-skinny SVD, established by the "
-    "anchored rechunk). Tie: solver decision compared with the model inside Coq over a grid of (solver, N, F, c). The headline "
+    "anchored rechunk); data path: fit and clustering see exactly the centred masked stack, the mean is independent of the row "
+    "chunking (count-weighted; unweighted refuted), binary masks are invisible to components vanishing outside them, soft masks are not. "
+    "Tie: solver decision compared with the model inside Coq over a grid of (solver, N, F, c); SVD certificate of every generated "
+    "stack/mask/chunking (mean, orthonormal eigenvectors of Xc^T Xc, complete, descending, projections) evaluated in Coq over Q. The headline "
     "claim - components, singular values, projections equal to an exact SVD for every chunking, separated groups split - and the "
     "label write-back (scripted classifier: one label per molecule in molecule order, nothing else changes) are numeric / "
     "implementation oracles, not theorems.",
